@@ -137,7 +137,11 @@ def main():
             dst = os.path.join(ROOT, "seeded", name)
             os.makedirs(dst, exist_ok=True)
             for fn in ("patch.diff", "demo.py"):
-                shutil.copy(os.path.join(d, fn), os.path.join(dst, fn))
+                if os.path.abspath(d) != os.path.abspath(dst):
+                    shutil.copy(os.path.join(d, fn), os.path.join(dst, fn))
+            if "evaluation" in meta and os.path.abspath(d) == os.path.abspath(dst):
+                meta.setdefault("earlier_evaluations", []).append(
+                    meta["evaluation"])
             meta["evaluation"] = {k: res[k] for k in (
                 "demo_clean_rc", "demo_patched_rc", "files", "tests", "checks",
                 "caught") if k in res}
